@@ -18,7 +18,7 @@ CODES = {
     5: "C04 monitor: Go BerMarshal panicked",
     6: "dec(model) != outcome of Go UnmarshalWithParams on arbitrary bytes",
     7: "C16 monitor: Go Unmarshal panicked or did not terminate",
-    71: "C16 monitor: wrongly-typed input (outer identifier does not match the target type) accepted as a value",
+    71: "C16 monitor: wrongly-typed input (identifier octets are not the ones the target type and parameters call for) accepted as a value",
 }
 # which codes decide which property: (correspondence codes, monitor codes)
 ROLE = {
@@ -26,7 +26,7 @@ ROLE = {
     "C05": ([1, 2], [4, 41, 42]),
     "C16": ([6, 2], [7, 71]),
 }
-KNOWN_KEYS = {42: "C05/untagged-member", 71: "C16/wrong-type-accepted", 31: "C04/plain-string-universal-tag"}
+KNOWN_KEYS = {42: "C05/untagged-member", 31: "C04/plain-string-universal-tag"}
 PROPS = {"C04": "Ber/PropsC04.v", "C05": "Ber/PropsC05.v", "C16": "Ber/PropsC16.v"}
 
 
@@ -129,7 +129,7 @@ def run(ctx, replay=None):
                  "an EXPLICIT stratum), one third primitives with top-level parameters; integers 0,+-1,+-2^k,+-2^k+-1, min/max, 3-octet, random; "
                  "lengths 0,1,126..128,255,256,65535+; bit strings incl. multiples of 8; optional members present with depth-decaying probability; "
                  "invalid CHOICE Present. dec: fixed malformed corpus x primitive/schema types, then truncation, bit flip, length overshoot, "
-                 "trailing bytes, byte replacement of valid encodings and random short strings; plus a Go-side exhaustive sweep of all short inputs. "
+                 "trailing bytes, byte replacement and identifier rewriting (other form, class, tag number, high tag numbers; outermost element two times in three, nested ones otherwise) of valid encodings and random short strings; plus a Go-side exhaustive sweep of all short inputs. "
                  "non-trivial = encodes to more than 2 octets (rt) / non-empty input (dec); distinct by hash of (type, params, value/bytes)"),
         "samples": [v["input"] for k, v in sorted(index.items())[:4]],
         "input_distribution": {"value_classes": classes, "case_kinds": kinds, "schema_types_exercised": schema_hit},
